@@ -686,6 +686,55 @@ fn scale(tier: Tier, totals: &mut Totals) {
             );
         }
     }
+    // a handful of files read over and over in every order (every sequence of four reads over the files,
+    // one after the other in one long history), one of them rewritten, appended to, copied over or moved
+    // away and back every few reads: each read gives what the file holds at that moment
+    for &nfiles in &tier.pick(vec![3usize, 5, 6], vec![3usize, 5, 6, 7, 9]) {
+        let mut text = format!("d = set \"{d}\"\nbad = set 0\nreads = set 0\nfn chk\nr = readfile ${{d}}/f${{1}}.txt\ne = get_by_name c${{1}}\nreads = calc ${{reads}} + 1\nif not equals \"${{r}}\" \"${{e}}\"\nbad = calc ${{bad}} + 1\nif not is_defined firstbad\nfirstbad = set \"read ${{reads}} of f${{1}}: ${{r}} instead of ${{e}}\"\nend\nend\nend\n", d = d);
+        for k in 0..nfiles {
+            text.push_str(&format!("c{k} = set \"content-{k}-{pad}\"\nwritefile ${{d}}/f{k}.txt ${{c{k}}}\n", k = k, pad = "x".repeat(k)));
+        }
+        let mut seq = vec![0usize; 4];
+        let mut count = 0usize;
+        let mut version = 0usize;
+        'all: loop {
+            for &k in &seq {
+                text.push_str(&format!("chk {}\n", k));
+                count += 1;
+                if count % 13 == 0 {
+                    version += 1;
+                    let k = version % nfiles;
+                    match version % 5 {
+                        0 => text.push_str(&format!("c{k} = set \"v{v}-of-{k}\"\nwritefile ${{d}}/f{k}.txt ${{c{k}}}\n", k = k, v = version)),
+                        1 => text.push_str(&format!("appendfile ${{d}}/f{k}.txt +{v}\nc{k} = set \"${{c{k}}}+{v}\"\n", k = k, v = version)),
+                        2 => {
+                            let other = (k + 1) % nfiles;
+                            text.push_str(&format!("cp ${{d}}/f{o}.txt ${{d}}/f{k}.txt\nc{k} = set \"${{c{o}}}\"\n", k = k, o = other));
+                        }
+                        3 => text.push_str(&format!("mv ${{d}}/f{k}.txt ${{d}}/away.txt\nwritefile ${{d}}/f{k}.txt between-{v}\nrm ${{d}}/f{k}.txt\nmv ${{d}}/away.txt ${{d}}/f{k}.txt\n", k = k, v = version)),
+                        _ => text.push_str(&format!("rm ${{d}}/f{k}.txt\nc{k} = set \"again-{v}\"\nwritefile ${{d}}/f{k}.txt ${{c{k}}}\n", k = k, v = version)),
+                    }
+                }
+            }
+            let mut i = 3;
+            loop {
+                seq[i] += 1;
+                if seq[i] < nfiles {
+                    break;
+                }
+                seq[i] = 0;
+                if i == 0 {
+                    break 'all;
+                }
+                i -= 1;
+            }
+        }
+        for k in 0..nfiles {
+            text.push_str(&format!("rm ${{d}}/f{k}.txt\n", k = k));
+        }
+        text.push_str("r = set done\ne = set done");
+        crate::util::scale_case_totals(totals, &format!("reads-in-every-order files {}", nfiles), &text, &[("bad", Some("0".into())), ("reads", Some(count.to_string())), ("firstbad", None)]);
+    }
     let sizes: Vec<usize> = tier.pick(vec![4095, 8192, 8193, 65537], vec![4095, 4096, 8191, 8192, 8193, 65535, 65536, 65537, 1_000_003, 5_000_001]);
     for (variant, &n) in sizes.iter().flat_map(|n| [(0u8, n), (1u8, n)]) {
         // the text is built by doubling a 16-character block and cut to size; variant 1 puts an e-acute
@@ -776,7 +825,7 @@ pub fn replay(case: &Value) -> Result<String, String> {
     Ok(out.join("\n").replace(&d, "<scratch>"))
 }
 
-pub const RULE: &str = "explicit-state breadth-first search from the empty directory to a fixpoint: writefile / appendfile with 3 contents, write/read binary file, readfile, touch, mkdir, cp and mv for every ordered pair of paths, rm, rm -r, rmdir, is_path_exists, is_file, is_dir, get_file_size and a recursive glob_array listing, over the paths {a.txt, d, d/b.txt, (d/e/c.txt,) 's p/ü.txt'} and the directories d/e and 's p'; operations that would exceed the entry or size bound are disabled; operations the documentation does not fix in the current state (directory sources of cp/mv, mv to a missing extension-less path, touch on a directory) are not generated. Each transition materialises the tree in a fresh scratch directory, runs the real command with absolute paths, snapshots the directory and compares output and the complete tree with the model (a failing operation must leave the tree unchanged). basename / dirname / join_path are swept separately (they do not depend on the tree). evaluations = transitions; distinct_nontrivial = distinct trees. Scale cases: write / read / size / cp / append / mv / overwrite with contents of 4095..65537 bytes (thorough: up to 5 MB), plain and with a two-byte character across the middle; 12 short contents that start or end with a byte order mark, line breaks, blanks, TAB, no-break / ideographic space, '#', a quote (write / read / size / cp / append). Bytes belong to their handle: read, change the file in one of 6 ways (or not), read again under one of 3 spellings of the path: two handles, each with the bytes of its moment, written out and released independently. Path functions by rule: paths of two and three elements from 12 names (blank, dots, hidden, multi-byte, CJK, emoji, combining mark), relative and absolute, with and without a trailing separator: basename, dirname, join_path. The path pool also has 19 elements that read as false, true, condition syntax, commands, options or special characters (0, no, false, set, not, -r, %, $x, a=b, #1 ...)";
+pub const RULE: &str = "explicit-state breadth-first search from the empty directory to a fixpoint: writefile / appendfile with 3 contents, write/read binary file, readfile, touch, mkdir, cp and mv for every ordered pair of paths, rm, rm -r, rmdir, is_path_exists, is_file, is_dir, get_file_size and a recursive glob_array listing, over the paths {a.txt, d, d/b.txt, (d/e/c.txt,) 's p/ü.txt'} and the directories d/e and 's p'; operations that would exceed the entry or size bound are disabled; operations the documentation does not fix in the current state (directory sources of cp/mv, mv to a missing extension-less path, touch on a directory) are not generated. Each transition materialises the tree in a fresh scratch directory, runs the real command with absolute paths, snapshots the directory and compares output and the complete tree with the model (a failing operation must leave the tree unchanged). basename / dirname / join_path are swept separately (they do not depend on the tree). evaluations = transitions; distinct_nontrivial = distinct trees. Scale cases: write / read / size / cp / append / mv / overwrite with contents of 4095..65537 bytes (thorough: up to 5 MB), plain and with a two-byte character across the middle; 12 short contents that start or end with a byte order mark, line breaks, blanks, TAB, no-break / ideographic space, '#', a quote (write / read / size / cp / append). Bytes belong to their handle: read, change the file in one of 6 ways (or not), read again under one of 3 spellings of the path: two handles, each with the bytes of its moment, written out and released independently. Path functions by rule: paths of two and three elements from 12 names (blank, dots, hidden, multi-byte, CJK, emoji, combining mark), relative and absolute, with and without a trailing separator: basename, dirname, join_path. The path pool also has 19 elements that read as false, true, condition syntax, commands, options or special characters (0, no, false, set, not, -r, %, $x, a=b, #1 ...) Reads in every order: 3, 5, 6 (thorough 7, 9) files, every sequence of four reads over them in one long history, every 13 reads one file rewritten / appended to / copied over / moved away and back / removed and written again: each read gives what the file holds at that moment.";
 pub const ASSUMPTIONS: &[&str] = &["the scratch directory is on tmpfs (/dev/shm) or a local file system without symlinks, permissions left at their defaults", "the output of rm on a missing path and of cp / mv of a file onto itself is not compared (only the tree, which must be unchanged)"];
 pub const EXHAUSTIVE: bool = true;
 pub const WALL_CAP_S: (u64, u64) = (58, 1500);
